@@ -59,12 +59,13 @@ const MAXLEN: usize = 34;
 /// `shape`: None = frame length 0..=34 and FOptsLen fully symbolic (thorough tier);
 /// Some((len, fol)) = concrete frame length and FOptsLen nibble (DESIGN R1), everything else symbolic.
 fn rx_step(ignore_mac: bool, shape: Option<(usize, u8)>) {
+    crate::mac::verif_kani_lorawan_device_mac_common::vinit();
     let probe: usize = kani::any();
     model::reset(probe);
     // functional consistency of the block cipher model is not needed here (every keystream block
     // has a distinct input) and its Ackermann loop is unrolled once per keystream iteration
     unsafe { model::CONSISTENT = false; }
-    let mut region = region::Configuration::new(mc::rt::REGIONS[0]);
+    let mut region = region::Configuration::new(mc::rt::region_ut(0));
     let mut cfg = mc::any_configuration();
     kani::assume(mc::cfg_inv(&cfg, &region));
     // two sticky answers and one plain answer pending
@@ -101,21 +102,21 @@ fn rx_step(ignore_mac: bool, shape: Option<(usize, u8)>) {
     if parses && !oversize {
         if let Some(n) = n {
             unsafe {
-                assert!(model::MIC_N == 1, "C05: exactly one MIC computation for a parseable, fresh frame");
+                crate::vcheck!(model::MIC_N == 1, "C05: exactly one MIC computation for a parseable, fresh frame");
                 let m = &model::MICS[0];
-                assert!(m.key == model::pack(pre.nwkskey.as_ref()), "C05: MIC must be verified under the NwkSKey");
+                crate::vcheck!(m.key == model::pack(pre.nwkskey.as_ref()), "C05: MIC must be verified under the NwkSKey");
                 let dir = (frame[0] >> 5) & 1;
-                assert!(m.b0 == mc_b0(dir, [frame[1], frame[2], frame[3], frame[4]], n, len - 4),
+                crate::vcheck!(m.b0 == mc_b0(dir, [frame[1], frame[2], frame[3], frame[4]], n, len - 4),
                     "C05: MIC must be computed with the reconstructed 32-bit counter N and the frame's direction");
-                assert!(m.b0_len == 16 && m.len == len - 4, "C05: MIC covers the frame without its MIC");
+                crate::vcheck!(m.b0_len == 16 && m.len == len - 4, "C05: MIC covers the frame without its MIC");
                 if probe < len - 4 {
-                    assert!(m.probe == frame[probe], "C05: MIC message must be the received bytes");
+                    crate::vcheck!(m.probe == frame[probe], "C05: MIC message must be the received bytes");
                 }
                 authentic = m.out[0] == frame[len - 4] && m.out[1] == frame[len - 3]
                     && m.out[2] == frame[len - 2] && m.out[3] == frame[len - 1];
             }
         } else {
-            unsafe { assert!(model::MIC_N == 0, "C05: stale/too-far counters are dropped before any MIC work"); }
+            unsafe { crate::vcheck!(model::MIC_N == 0, "C05: stale/too-far counters are dropped before any MIC work"); }
         }
     }
     let accept = parses && !oversize && n.is_some() && authentic;
@@ -132,37 +133,37 @@ fn rx_step(ignore_mac: bool, shape: Option<(usize, u8)>) {
         let mut twin = pre.clone();
         let mut tcfg = cfg0;
         let tr = twin.rx2_complete(&mut tcfg, &region);
-        assert!(session_same(&s, &twin) && mc::cfg_same(&cfg, &tcfg), "C07: an oversized frame may only act like a receive timeout");
-        assert!(same_resp(&resp, &tr), "C07: an oversized frame must be answered like a receive timeout");
+        crate::vcheck!(session_same(&s, &twin) && mc::cfg_same(&cfg, &tcfg), "C07: an oversized frame may only act like a receive timeout");
+        crate::vcheck!(same_resp(&resp, &tr), "C07: an oversized frame must be answered like a receive timeout");
         kani::cover!(true, "info: oversized frame");
     } else if accept {
         let n = n.unwrap();
         kani::cover!(true, "info: accepted downlink");
         kani::cover!(n > 0xFFFF && (n as u16) < (pre.fcnt_down.unwrap_or(0) as u16), "info: accepted across a 16-bit roll-over");
-        assert!(s.fcnt_down == Some(n), "C05: the accepted counter N must be remembered");
-        assert!(s.adr_ack_cnt == 0, "C12: an accepted downlink restarts the ADR ACK counter");
+        crate::vcheck!(s.fcnt_down == Some(n), "C05: the accepted counter N must be remembered");
+        crate::vcheck!(s.adr_ack_cnt == 0, "C12: an accepted downlink restarts the ADR ACK counter");
         if pre.fcnt_up == u32::MAX {
-            assert!(matches!(resp, Response::SessionExpired), "C06: counter space exhausted must be reported as SessionExpired");
-            assert!(s.fcnt_up == u32::MAX, "C06: the uplink counter must not wrap");
+            crate::vcheck!(matches!(resp, Response::SessionExpired), "C06: counter space exhausted must be reported as SessionExpired");
+            crate::vcheck!(s.fcnt_up == u32::MAX, "C06: the uplink counter must not wrap");
         } else {
-            assert!(matches!(resp, Response::DownlinkReceived(x) if x == n), "C05: accepted downlink is reported with its counter N");
-            assert!(s.fcnt_up == pre.fcnt_up + 1, "C06: an accepted downlink advances FCntUp by exactly one");
+            crate::vcheck!(matches!(resp, Response::DownlinkReceived(x) if x == n), "C05: accepted downlink is reported with its counter N");
+            crate::vcheck!(s.fcnt_up == pre.fcnt_up + 1, "C06: an accepted downlink advances FCntUp by exactly one");
         }
         let confirmed_dl = mtype == 5 || mtype == 4;
-        assert!(s.uplink.confirms_downlink() == (confirmed_dl || pre.uplink.confirms_downlink()),
+        crate::vcheck!(s.uplink.confirms_downlink() == (confirmed_dl || pre.uplink.confirms_downlink()),
             "C12: ACK is owed after an accepted confirmed downlink (and stays owed)");
         // sticky answers are cleared by a downlink accepted in a Class A window only
         if ignore_mac {
-            assert!(uh::pending(&s.uplink).len() == uh::pending(&pre.uplink).len(), "C08: a Class C downlink must not clear pending answers");
+            crate::vcheck!(uh::pending(&s.uplink).len() == uh::pending(&pre.uplink).len(), "C08: a Class C downlink must not clear pending answers");
         } else {
-            assert!(uh::pending(&s.uplink).len() == 0, "C08: a downlink accepted in a Class A window clears the repeated answers");
+            crate::vcheck!(uh::pending(&s.uplink).len() == 0, "C08: a downlink accepted in a Class A window clears the repeated answers");
         }
         // payload decryption: key by FPort, counter N, block index i
         let has_port = 8 + foptslen + 4 < len;
         let plen = if has_port { len - 4 - (8 + foptslen) - 1 } else { 0 };
         let nblocks = (plen + 15) / 16;
         unsafe {
-            assert!(model::ENC_N == nblocks, "C05: one keystream block per 16 payload bytes");
+            crate::vcheck!(model::ENC_N == nblocks, "C05: one keystream block per 16 payload bytes");
             if plen > 0 {
                 let port = frame[8 + foptslen];
                 let key = if port == 0 { model::pack(pre.nwkskey.as_ref()) } else { model::pack(pre.appskey.as_ref()) };
@@ -171,15 +172,15 @@ fn rx_step(ignore_mac: bool, shape: Option<(usize, u8)>) {
                 let j: usize = kani::any();
                 kani::assume(j < nblocks);
                 let e = model::ENC[j];
-                assert!(e.key == key, "C05: payload key is selected by FPort (0: NwkSKey, else AppSKey)");
-                assert!(e.input == mc_a(dir, addr, n, (j + 1) as u8), "C05: payload must be decrypted with the same counter N (block A_i)");
+                crate::vcheck!(e.key == key, "C05: payload key is selected by FPort (0: NwkSKey, else AppSKey)");
+                crate::vcheck!(e.input == mc_a(dir, addr, n, (j + 1) as u8), "C05: payload must be decrypted with the same counter N (block A_i)");
                 if port != 0 && pre.fcnt_up != u32::MAX {
-                    assert!(dl.len() == 1, "C05: application payload is delivered");
-                    assert!(dl[0].fport == port && dl[0].data.len() == plen, "C05: delivered port/length");
+                    crate::vcheck!(dl.len() == 1, "C05: application payload is delivered");
+                    crate::vcheck!(dl[0].fport == port && dl[0].data.len() == plen, "C05: delivered port/length");
                     let k: usize = kani::any();
                     kani::assume(k < plen && k / 16 == j);
                     let ks = model::byte(e.output, k % 16);
-                    assert!(dl[0].data[k] == frame[8 + foptslen + 1 + k] ^ ks, "C05: delivered plaintext = ciphertext xor keystream(N)");
+                    crate::vcheck!(dl[0].data[k] == frame[8 + foptslen + 1 + k] ^ ks, "C05: delivered plaintext = ciphertext xor keystream(N)");
                     kani::cover!(plen > 16, "info: two keystream blocks");
                 }
             }
@@ -188,11 +189,11 @@ fn rx_step(ignore_mac: bool, shape: Option<(usize, u8)>) {
         kani::cover!(parses && n.is_some() && !authentic, "info: parseable fresh frame with wrong MIC");
         kani::cover!(parses && n.is_none(), "info: replayed / stale counter");
         kani::cover!(!parses, "info: unparseable bytes");
-        assert!(matches!(resp, Response::NoUpdate), "C05: a frame that is not authentic and fresh must not be acted upon");
-        assert!(s.fcnt_down == pre.fcnt_down, "C05: a rejected frame must not move the downlink counter");
-        assert!(session_same(&s, &pre), "C07: a rejected frame must leave the session unchanged");
-        assert!(mc::cfg_same(&cfg, &cfg0), "C07: a rejected frame must leave the MAC configuration unchanged");
-        assert!(dl.len() == 0, "C07: a rejected frame must not deliver data");
+        crate::vcheck!(matches!(resp, Response::NoUpdate), "C05: a frame that is not authentic and fresh must not be acted upon");
+        crate::vcheck!(s.fcnt_down == pre.fcnt_down, "C05: a rejected frame must not move the downlink counter");
+        crate::vcheck!(session_same(&s, &pre), "C07: a rejected frame must leave the session unchanged");
+        crate::vcheck!(mc::cfg_same(&cfg, &cfg0), "C07: a rejected frame must leave the MAC configuration unchanged");
+        crate::vcheck!(dl.len() == 0, "C07: a rejected frame must not deliver data");
     }
 }
 
